@@ -15,6 +15,8 @@ EXPLANATION = (
     "extents of the transform classes (compile-time witness).")
 NOT_DECIDED = "floating-point text formatting, identical navigation results"
 
+TECHNIQUE = ('writer/reader agreement of JSON keys (string-literal events with their callee context), field coverage, omission-guard vs default comparison, enum<->char table inversion, static_assert witness for transform extents')
+
 UNITS = [
     "src/orange/OrangeInputIO.json.cc",
     "src/orange/detail/OrangeInputIOImpl.json.cc",
